@@ -51,13 +51,14 @@ function __obs(res, p) {
   return t.join(" ");
 }
 function __runC12(ctor, ops) {
-  var p;
+  var p, other;
   switch (ctor[0]) {
     case "CN": p = new URLSearchParams(); break;
     case "CS": p = new URLSearchParams(ctor[1]); break;
     case "CR": { var o = {}; ctor[1].forEach(function (kv) { o[kv[0]] = kv[1]; }); p = new URLSearchParams(o); break; }
     case "CP": p = new URLSearchParams(ctor[1]); break;
     case "CU": p = new URLSearchParams(new URLSearchParams(ctor[1])); break;
+    case "CC": other = new URLSearchParams(ctor[1]); p = new URLSearchParams(other); break;
   }
   var out = [__obs("-", p)];
   var iters = [];
@@ -70,6 +71,7 @@ function __runC12(ctor, ops) {
       case "DU": p.delete(op[1], undefined); break;
       case "S": p.set(op[1], op[2]); break;
       case "O": p.sort(); break;
+      case "X": if (other) { var t = p; p = other; other = t; } break;
       case "G": { var g = p.get(op[1]); res = g === null ? "n" : "v" + hx(g); break; }
       case "L": res = "l" + p.getAll(op[1]).map(hx).join(","); break;
       case "H1": res = p.has(op[1]) ? "t" : "f"; break;
@@ -182,14 +184,26 @@ func (e *env) genC12() c12case {
 		c.Ctor = []interface{}{"CR", e.genPairs(true)}
 	case 5, 6, 7:
 		c.Ctor = []interface{}{"CP", e.genPairs(false)}
-	default:
+	case 8:
 		c.Ctor = []interface{}{"CU", e.genPairs(false)}
+	default:
+		// a copy next to its source: operations on one must not show in the other
+		ps := e.genPairs(false)
+		for len(ps) < 3 {
+			ps = append(ps, []string{e.word(), e.word()})
+		}
+		c.Ctor = []interface{}{"CC", ps}
 	}
 	e.st.Hit("ctor:" + c.Ctor[0].(string))
 	nops := e.rng.Intn(16)
 	niter := 0
 	for i := 0; i < nops; i++ {
 		var op []interface{}
+		if c.Ctor[0].(string) == "CC" && e.rng.Chance(18) {
+			c.Ops = append(c.Ops, []interface{}{"X"})
+			e.st.Hit("op:X")
+			continue
+		}
 		switch x := e.rng.Intn(100); {
 		case x < 20:
 			op = []interface{}{"A", e.word(), e.word()}
@@ -235,7 +249,7 @@ func lineOfC12(c c12case) string {
 	switch c.Ctor[0].(string) {
 	case "CS":
 		t = append(t, hs(c.Ctor[1].(string)))
-	case "CR", "CP", "CU":
+	case "CR", "CP", "CU", "CC":
 		ps := toPairs(c.Ctor[1])
 		t = append(t, fmt.Sprint(len(ps)))
 		for _, p := range ps {
@@ -246,7 +260,7 @@ func lineOfC12(c c12case) string {
 	for _, op := range c.Ops {
 		name := op[0].(string)
 		switch name {
-		case "IK", "IV", "IE", "O":
+		case "IK", "IV", "IE", "O", "X":
 			t = append(t, name)
 		case "N":
 			t = append(t, "N", fmt.Sprint(toInt(op[1])))
